@@ -646,8 +646,8 @@ func (c *Compiler) compileSwitch(node *ast.Switch) error {
 	}
 	c.changeOperand(jumpDefaultPos, delta)
 
-	// Compile the default case block if it exists
-	if defaultJumpPos != -1 {
+	// Compile the default case block if it exists and is not empty
+	if defaultJumpPos != -1 && choices[defaultJumpPos].Block() != nil {
 		if err := c.compile(choices[defaultJumpPos].Block()); err != nil {
 			return err
 		}
